@@ -135,6 +135,8 @@ type loopInfo struct {
 	decOld string
 	auto   []autoInv
 	tokAtHead string
+	mapTargets []ssa.Value // maps updated in the loop through values defined outside it
+	mapOther   bool        // some map is updated in another way (callee, map created in the loop)
 }
 
 type rangeState struct {
@@ -504,7 +506,21 @@ func (vc *VC) closureFact(h, key, nextId string, seq int) {
 	if elem == nil {
 		return
 	}
-	if _, ghost := elem.(*GhostType); ghost {
+	if g, ghost := elem.(*GhostType); ghost {
+		// values stored in Go maps: references held by an allocated map point to allocated objects
+		if strings.HasPrefix(key, "#map.val<") && g.Val != nil {
+			switch g.Val.Underlying().(type) {
+			case *types.Pointer, *types.Map, *types.Chan, *types.Signature, *types.Slice, *types.Interface:
+				tmp := &State{nextId: nextId}
+				inv := vc.typeInv(g.Val, sx("select", sx("select", h, "l!c"), "k!c"), tmp)
+				term := fmt.Sprintf("(forall ((l!c Loc) (k!c %s)) (! (=> (< (rt l!c) %s) %s) :pattern ((select (select %s l!c) k!c))))", vc.sortOf(g.Key), nextId, inv, h)
+				if seq == 0 {
+					vc.facts = append(vc.facts, Fact{Seq: 0, Term: term, Kind: "assume"})
+				} else {
+					vc.addFact("assume", term)
+				}
+			}
+		}
 		return
 	}
 	switch elem.Underlying().(type) {
@@ -534,7 +550,18 @@ func (vc *VC) heapRead(st *State, key string, elem types.Type, idx string) strin
 }
 
 func (vc *VC) heapWrite(st *State, key string, elem types.Type, idx, val string) {
-	vc.heapSetTerm(st, key, elem, sx("store", vc.heapGet(st, key, elem), idx, val))
+	old := vc.heapGet(st, key, elem)
+	vc.heapSetTerm(st, key, elem, sx("store", old, idx, val))
+	if vc.forwardFrames() && vc.heapSort[key] != "" && strings.HasPrefix(vc.heapSort[key], "(Array Loc ") && !strings.HasPrefix(key, "#") {
+		// forward propagation of element terms across heap versions (for witnesses of existentials)
+		nw := st.heap[key]
+		vc.addFact("assume", fmt.Sprintf("(forall ((l!w Loc)) (! (=> (not (= l!w %s)) (= (select %s l!w) (select %s l!w))) :pattern ((select %s l!w))))", idx, nw, old, old))
+	}
+}
+
+// forwardFrames: frame facts are also triggered by reads of the older heap version.
+func (vc *VC) forwardFrames() bool {
+	return vc.fc != nil && vc.fc.Flags["forward-frames"]
 }
 
 func (vc *VC) havocAll(st *State) {
@@ -983,12 +1010,39 @@ func (vc *VC) rpo() []*ssa.BasicBlock {
 	seen := map[int]bool{}
 	var post []*ssa.BasicBlock
 	var dfs func(b *ssa.BasicBlock)
+	// successors that lead back to the block (loop bodies) are placed before the loop exits in the
+	// order of execution, so that the obligations of a loop do not carry the facts of the code after it
+	reaches := func(from, to *ssa.BasicBlock) bool {
+		vis := map[int]bool{}
+		stack := []*ssa.BasicBlock{from}
+		for len(stack) > 0 {
+			n := stack[len(stack)-1]
+			stack = stack[:len(stack)-1]
+			if n == to {
+				return true
+			}
+			if vis[n.Index] {
+				continue
+			}
+			vis[n.Index] = true
+			stack = append(stack, n.Succs...)
+		}
+		return false
+	}
 	dfs = func(b *ssa.BasicBlock) {
 		seen[b.Index] = true
+		var exits, inner []*ssa.BasicBlock
 		for _, s := range b.Succs {
 			if s.Dominates(b) { // back edge
 				continue
 			}
+			if reaches(s, b) {
+				inner = append(inner, s)
+			} else {
+				exits = append(exits, s)
+			}
+		}
+		for _, s := range append(exits, inner...) {
 			if !seen[s.Index] {
 				dfs(s)
 			}
